@@ -244,3 +244,36 @@ Theorem c05_quiescent_reachable : forall c tr s, traces_to c tr s ->
   exists tr2 s', Forall (fun l => is_rel l = true) tr2 /\ traces_to c (tr ++ tr2) s' /\ quiescent s' = true.
 Proof. exact trace_drains. Qed.
 Print Assumptions c05_quiescent_reachable.
+
+(** * Monitors over the observation sequence of a run (cli/CliMonitors.v), extracted (extract/climon.list) and
+    evaluated by ocaml/run_cli.ml on every harness log, racing ones included.  [env_of tr] = the environment labels
+    of the trace in order (API calls, context ends, peer records, transport faults, callback handler returns),
+    [concat oss] = the observations of the run in order.  No monitor has a hypothesis. *)
+From JV Require CliMonitors.
+Module Monitors.
+Import CliMonitors.
+(* (a) no operation number returns twice, and every operation number that returns was issued ([LOp n _ _] is among
+   the environment labels) *)
+Theorem c05_mon_return_once_sound : forall c tr s oss, run (init_of c) tr = Some (s, oss) ->
+  mon_return_once (env_of tr) (concat oss) = true.
+Proof. exact CliMonitors.mon_return_once_sound. Qed.
+Print Assumptions c05_mon_return_once_sound.
+
+Theorem c05_ret_was_issued : forall c tr s oss n r, run (init_of c) tr = Some (s, oss) -> In (ORet n r) (concat oss) ->
+  In n (op_nums (env_of tr)).
+Proof. exact CliMonitors.ret_was_issued. Qed.
+Print Assumptions c05_ret_was_issued.
+
+(* (c) OnStop is observed at most once, and no record - request or callback reply, transmitted or failed - is
+   handed to the transport after it *)
+Theorem c05_mon_onstop_once_sound : forall c tr s oss, run (init_of c) tr = Some (s, oss) ->
+  mon_onstop_once (env_of tr) (concat oss) = true.
+Proof. exact CliMonitors.mon_onstop_once_sound. Qed.
+Print Assumptions c05_mon_onstop_once_sound.
+
+(* (d) no record is handed to the transport after the channel was closed *)
+Theorem c05_mon_close_seals_sound : forall c tr s oss, run (init_of c) tr = Some (s, oss) ->
+  mon_close_seals (env_of tr) (concat oss) = true.
+Proof. exact CliMonitors.mon_close_seals_sound. Qed.
+Print Assumptions c05_mon_close_seals_sound.
+End Monitors.
